@@ -14,7 +14,7 @@ from core import q
 warnings.simplefilter('ignore')
 
 REQUIRED = ['treeOK_of_disciplined', 'tree_discipline', 'run_discipline', 'leaf_call_keeps_shutter', 'nRepeat_bounds', 'pass_first',
-            'pass_step', 'pass_last', 'pass_across', 'schedule_length']
+            'pass_step', 'pass_last', 'pass_across', 'schedule_length', 'single_file_view', 'flatten_own_events']
 RULE = ('1..3 trench columns (or U-trench columns with 0..2 pillars) are dug with the real API from layouts of straight / tilted / S-bent '
         'guides (some leaving a neck that splits when inset), with random box counts, box height, z offset <= 0, deltaz, floor spacing, '
         'speeds, power-axis settings and base folders, and exported by the real TrenchWriter / UTrenchWriter.pgm() under random compiler '
